@@ -363,7 +363,53 @@ def np_where(I, a, k):
 
 
 def np_reshape(I, a, k):
-    raise Unsupported("np.reshape")
+    arr, shape = a[0], a[1] if len(a) > 1 else k.get("newshape", k.get("shape"))
+    if not isinstance(arr, NArr) or not isinstance(shape, tuple):
+        raise Unsupported("np.reshape arguments")
+    flat = list(arr.data) if arr.ndim == 1 else [x for r in arr.data for x in r]
+    n = len(flat)
+    if shape in ((-1, 1), (n, 1)):
+        return NArr([[x] for x in flat], (n, 1))
+    if shape in ((-1,), (n,)):
+        return NArr(flat, (n,))
+    if shape in ((1, -1), (1, n)):
+        return NArr([flat], (1, n))
+    raise Unsupported("np.reshape to %r" % (shape,))
+
+
+def np_linalg_norm(I, a, k):
+    """Euclidean norm (A5): the non-negative real whose square is the sum of squares."""
+    import z3
+
+    from .core import to_real
+
+    arr = a[0]
+    axis = k.get("axis", a[2] if len(a) > 2 else None)
+    keep = bool(k.get("keepdims", False))
+    if not isinstance(arr, NArr) or (len(a) > 1 and a[1] is not None) or k.get("ord") is not None:
+        raise Unsupported("np.linalg.norm arguments")
+
+    def norm(xs):
+        xs = [to_real(x) for x in xs]
+        if all(z3.is_rational_value(z3.simplify(x)) for x in xs):
+            sq = z3.simplify(z3.Sum([x * x for x in xs] + [z3.RealVal(0)]))
+            fr = sq.as_fraction()
+            import math
+            from fractions import Fraction
+
+            rn, rd = math.isqrt(fr.numerator), math.isqrt(fr.denominator)
+            if rn * rn == fr.numerator and rd * rd == fr.denominator:
+                return z3.RealVal(Fraction(rn, rd))
+        r = I.ctx.fresh_real("norm")
+        I.ctx.assume(z3.And(r >= 0, r * r == z3.Sum([x * x for x in xs] + [z3.RealVal(0)])), "A5.norm")
+        return r
+
+    if arr.ndim == 1 and axis is None:
+        return norm(arr.data)
+    if arr.ndim == 2 and axis == 1:
+        vals = [norm(r) for r in arr.data]
+        return NArr([[v] for v in vals], (len(vals), 1)) if keep else NArr(vals, (len(vals),))
+    raise Unsupported("np.linalg.norm axis %r" % (axis,))
 
 
 def make_numpy():
@@ -377,8 +423,10 @@ def make_numpy():
         "abs": np_abs,
         "isclose": np_isclose,
         "where": np_where,
+        "reshape": np_reshape,
     }
     attrs = {n: NativeFn("np." + n, f) for n, f in fns.items()}
+    attrs["linalg"] = ExtMod("numpy.linalg", {"norm": NativeFn("np.linalg.norm", np_linalg_norm)})
     attrs["ndarray"] = ExtType("ndarray")
     return ExtMod("numpy", attrs)
 
